@@ -369,8 +369,8 @@ pub fn run(ctx: &Ctx) -> Report {
         "Metamorphic: run(schedule) == run(one piece over the effective stream). Token level: html5ever's tokenizer with a recording sink (HTML-like policy: raw-text switches, Script suspension at </script>), default and exact_errors options; compared: every non-character token incl. ParseError text with its line number, and between them the concatenated character data with the line number of its last fragment; at every Script suspension the unread remainder is read off the BufferQueue, the consumed prefix must end with the suspending tag (checked by tokenizing the prefix alone), and text pushed to the front of the input there must be parsed as if written at that position (one-piece run over prefix+injected+rest). Search: every partition of every input of a pool (~3k inputs <=12 chars placing CR, LF, CRLF, U+FEFF, character references, DOCTYPE/PUBLIC/SYSTEM/--/[CDATA[ keywords, </script, raw-text end tags in each context), then random token soup x random cut multisets (incl. empty and one-character chunks) x random injections. Non-trivial: >=2 non-empty chunks with a cut after CR, before U+FEFF, inside markup, inside a look-ahead keyword, inside a character reference, or a non-empty injection at a suspension; distinct by hash of (case, chunks, injections).",
     );
     rep.assume("fragment boundaries of character data legitimately move with chunking; only the concatenation and the line of the last fragment are compared");
-    report_known(ctx, &mut rep, &|v| replay(ctx, v));
-    run_regressions(ctx, &mut rep, &|v| replay(ctx, v));
+    report_known(ctx, &mut rep, &|v| replay(&ctx.strict_clone(), v));
+    run_regressions(ctx, &mut rep, &|v| replay(&ctx.strict_clone(), v));
     run_token_level(ctx, &mut rep);
     for l in [
         "cut after CR",
